@@ -55,6 +55,7 @@ def shards(tier, seed):
     b = BOUNDS[tier]
     out = [("tables", i, b["k"], b["d"]) for i in range(len(PATTERNS))]
     out.append(("roundtrip",))
+    out.append(("threads",))
     return out
 
 
@@ -173,8 +174,29 @@ def judge(iface, table, path, r, routers, root=""):
     r.add("outcomes", (i, tuple(sorted(types.items()))))
 
 
+def thread_family(r, tier):
+    import os
+    from ..core.runner import REPO
+    from baize import wsgi as W
+    files = [os.path.join(REPO, "baize", x) for x in ("routing.py", "wsgi/routing.py")]
+
+    def ep(tag):
+        def app(environ, start_response):
+            pp = W.Request(environ).path_params
+            return W.PlainTextResponse(repr((tag, sorted((k, repr(v)) for k, v in pp.items()))))(environ, start_response)
+        return app
+    router = W.Router(("/i/{x:int}", ep("int")), ("/d/{x:decimal}/{y}", ep("dec")), ("/s/{name}", ep("str")), ("/{p:any}", ep("any")))
+    reqs = {"int": SV.AReq(path="/i/7"), "dec": SV.AReq(path="/d/1.50/é"), "str": SV.AReq(path="/s/bob"), "any": SV.AReq(path="/x/y"), "none": SV.AReq(path="nomatch")}
+    pairs = [(x, y) for x in reqs for y in reqs if x < y]
+    SV.wsgi_thread_pairs(r, "Router", router, reqs, pairs, files, bound=1 if tier == "quick" else 2)
+    r.sample({"threads": "two requests on one Router object, line-level schedules"})
+
+
 def run_shard(desc, tier):
     r = R()
+    if desc[0] == "threads":
+        thread_family(r, tier)
+        return r
     if desc[0] == "tables":
         _, first, k, d = desc
         ps = paths(d)
@@ -259,6 +281,9 @@ def finish(merged, tier):
 
 def replay(w):
     r = R()
+    if "threads" in w:
+        thread_family(r, "quick")
+        return bool(r.viol), {"violations": sorted(r.viol), "texts": [v[2][:300] for v in r.viol.values()]}
     if "type" in w:
         # re-run the whole small round-trip family; report only this one
         roundtrip(r)
